@@ -131,6 +131,7 @@ class FunctionSpec:
         self.noprobe = False
         self.flags = []
         self.includes = []
+        self.witness = []
         for k, v in parse_directives(path):
             if k in ('function', 'file', 'sig', 'inclass', 'unit', 'c', 'harness', 'wrapbody', 'bounded'):
                 setattr(self, k, v.strip())
@@ -179,6 +180,15 @@ class FunctionSpec:
                 if not m:
                     raise SpecError("bad @at header %r in %s" % (head, path))
                 self.ats.append(AtSpec(m.group(1), int(m.group(2)), m.group(3), '\n'.join(rest)))
+            elif k == 'witness':
+                for l in v.split('\n'):
+                    l = l.strip()
+                    if not l:
+                        continue
+                    m = re.match(r'(\w+)\s*:\s*([^=]+?)\s*=\s*(.*)$', l)
+                    if not m:
+                        raise SpecError("bad @witness line %r in %s" % (l, path))
+                    self.witness.append((m.group(1), m.group(2).strip(), m.group(3).strip()))
             elif k == 'include':
                 self.includes += v.split()
             elif k == 'safety':
